@@ -18,6 +18,25 @@
 //! random one (c10_e2e.rs, `long`): the ordinary random scenarios (held keys, virtual keys,
 //! layers, all leaf kinds) with one or two gaps anywhere in the history replaced by a gap longer
 //! than the counter range, aimed at 65536*k + q(t) - 1 / + 0 / + 1 of a timing leaf.
+//!
+//! Late-evaluation dimension of the end-to-end point (c10_late.rs): the switch is evaluated while
+//! presses have arrived that kanata has not processed yet or never processes through the normal
+//! path - as the tap / hold action of a tap-hold (plain, -press, -release; by release, timeout,
+//! another key's press, another key's press + release) with keys pressed during the undecided
+//! period, as the action of a tap-dance ended by another key, as the action of a v1 chord
+//! (defchords, 2 and 3 members) or a v2 chord (defchordsv2), as a plain key after a chord was
+//! typed earlier, after a held-back v2 chord participant, and inside a burst of events that arrive
+//! without a tick in between. `input-history` is judged against the ARRIVAL order of the press
+//! events of the history (real and virtual inputs), `input` / bare keys / layer items only name
+//! things that are settled at that moment.
+//!
+//! Macro-held-key dimension (c10_macro.rs): key tests of fork and of switch (bare key names) while
+//! one or two running macros hold modifiers through output-chord-prefixed groups, with the same
+//! modifiers optionally also held by a physical key / multi / virtual key; the fork key, the key of
+//! the switch equivalent to the fork tree and the key of a switch with random and/or/not key
+//! expressions are pressed (each in a fresh kanata) next to the OS-visible edges of the macro, in
+//! the middle of holds and after the macros ended. A key is active iff it is down in the OS model
+//! when the probe key arrives; fork, equivalent switch and model must agree.
 
 #[path = "c10_model.rs"]
 mod model;
@@ -25,6 +44,10 @@ mod model;
 mod e2e;
 #[path = "c10_age.rs"]
 mod age;
+#[path = "c10_late.rs"]
+mod late;
+#[path = "c10_macro.rs"]
+mod mac;
 
 use crate::core::rng::Rng;
 use crate::core::{CaseOut, Check, Ctx};
@@ -687,12 +710,21 @@ fn n_e2e_long(ctx: &Ctx) -> u64 {
     ctx.tier.sel(2_000, 30_000)
 }
 
+/// end-to-end scenarios in which the switch is evaluated while presses are unprocessed (c10_late.rs)
+fn n_late(ctx: &Ctx) -> u64 {
+    ctx.tier.sel(6_000, 80_000)
+}
+/// end-to-end scenarios with keys held by running macros (c10_macro.rs); each has ~7 x 3 probes
+fn n_macro(ctx: &Ctx) -> u64 {
+    ctx.tier.sel(600, 8_000)
+}
+
 impl Check for C10Check {
     fn id(&self) -> &'static str {
         "C10"
     }
     fn n_cases(&self, ctx: &Ctx) -> u64 {
-        exh_layout(ctx).cases + 1 + n_random(ctx) + n_e2e(ctx) + age::n_cases(ctx) + n_e2e_long(ctx)
+        exh_layout(ctx).cases + 1 + n_random(ctx) + n_e2e(ctx) + age::n_cases(ctx) + n_e2e_long(ctx) + n_late(ctx) + n_macro(ctx)
     }
     fn describe(&self, ctx: &Ctx, idx: u64) -> Value {
         let ne = exh_layout(ctx).cases;
@@ -707,8 +739,12 @@ impl Check for C10Check {
             e2e::describe(ctx, idx - ne - 1 - n_random(ctx))
         } else if idx < ne + 1 + n_random(ctx) + n_e2e(ctx) + age::n_cases(ctx) {
             age::describe(ctx, idx - ne - 1 - n_random(ctx) - n_e2e(ctx))
-        } else {
+        } else if idx < ne + 1 + n_random(ctx) + n_e2e(ctx) + age::n_cases(ctx) + n_e2e_long(ctx) {
             e2e::describe_long(ctx, idx - ne - 1 - n_random(ctx) - n_e2e(ctx) - age::n_cases(ctx))
+        } else if idx < ne + 1 + n_random(ctx) + n_e2e(ctx) + age::n_cases(ctx) + n_e2e_long(ctx) + n_late(ctx) {
+            late::describe(ctx, idx - ne - 1 - n_random(ctx) - n_e2e(ctx) - age::n_cases(ctx) - n_e2e_long(ctx))
+        } else {
+            mac::describe(ctx, idx - ne - 1 - n_random(ctx) - n_e2e(ctx) - age::n_cases(ctx) - n_e2e_long(ctx) - n_late(ctx))
         }
     }
     fn run_case(&self, ctx: &Ctx, idx: u64) -> CaseOut {
@@ -724,13 +760,17 @@ impl Check for C10Check {
             e2e::run(&mut out, ctx, idx - ne - 1 - n_random(ctx));
         } else if idx < ne + 1 + n_random(ctx) + n_e2e(ctx) + age::n_cases(ctx) {
             age::run(&mut out, ctx, idx - ne - 1 - n_random(ctx) - n_e2e(ctx));
-        } else {
+        } else if idx < ne + 1 + n_random(ctx) + n_e2e(ctx) + age::n_cases(ctx) + n_e2e_long(ctx) {
             e2e::run_long(&mut out, ctx, idx - ne - 1 - n_random(ctx) - n_e2e(ctx) - age::n_cases(ctx));
+        } else if idx < ne + 1 + n_random(ctx) + n_e2e(ctx) + age::n_cases(ctx) + n_e2e_long(ctx) + n_late(ctx) {
+            late::run(&mut out, ctx, idx - ne - 1 - n_random(ctx) - n_e2e(ctx) - age::n_cases(ctx) - n_e2e_long(ctx));
+        } else {
+            mac::run(&mut out, ctx, idx - ne - 1 - n_random(ctx) - n_e2e(ctx) - age::n_cases(ctx) - n_e2e_long(ctx) - n_late(ctx));
         }
         out
     }
     fn rule(&self) -> String {
-        "Direct part: configuration text rendered from the harness's own expression tree is parsed by the real parser; the Action::Switch found in the layout is evaluated through Switch::actions (whole case list, and every case alone through a one-case Switch) and compared with a recursive evaluator. Exhaustive and seed-independent: every list of or/and/not trees (arity >= 1) of total size <= 7 quick / 8 thorough over leaves {a,b,c}, <= 6 / 7 over three two-word leaves {(input real a),(input-history virtual vk1 2),(base-layer l1)}, <= 6 / 7 over {a,(layer l1),(key-timing 2 gt 2304)}, each under all 8 truth assignments; every break/fallthrough pattern x truth pattern of case lists up to length 5. Random: 3 switches per case with 1-16 cases, expressions up to depth 8 and ~120 nodes, all ten item kinds, two-word items at every position, thresholds on every compression edge, 48/96 random states each with history ages placed on q(t)-1, q(t), q(t)+1. End-to-end part: a real Kanata is driven through Sim into a state (held keys, released keys, virtual keys, held and switched layers, gaps placed on threshold edges), the switch or fork key is pressed and the witness keys appearing at the OS are compared with the model (up to 8 firing cases exactly; above 8 only 'no non-firing case performed'). Old-history-entry families (end-to-end, real ticks): systematic and seed-independent - recency 1..=8 x {newer entries typed after the long gap, all entries typed before it (several entries beyond the counter range at once), thorough also: an even older entry and a first long gap before the referenced key} x 38 quick / 63 thorough ages of the referenced entry (5000, 32767..32769, 65407/65408, every tick 65530..=65545, 65536+{199,200,201,1000,1001,2303,2304}, 70000, 100000, 131071..131073, 131222, 196611, 200000, ...) x 4 threshold triples {0,200,1000} {5,2303,30000} {12,65407,65534} {1,32767,65535}, each threshold as lt and as gt case plus (key-history k n), (input-history real k n+1), (key-timing 1 ..), (key-timing n+1 ..) and an and/not combination on the same history; random - 2000 quick / 30000 thorough scenarios of the ordinary end-to-end generator (timing-heavy leaves, thresholds 0..65535) in which one or two gaps anywhere in the history are longer than 65535 ticks, aimed so that the entry a key-timing leaf refers to is 65530..65545 or 65536*k + {q(t)-1, q(t), q(t)+1, 0..9, random} ticks old (k = 1..3). Violations found when a key-timing leaf refers to an entry older than 65535 ticks carry their own signature suffix. Non-trivial = a case/scenario that was evaluated; distinct = exhaustive chunk, or set of item kinds (random), or scenario class (e2e), or (layout, recency, threshold set) / (recency, comparison) of an old entry (age families).".into()
+        "Direct part: configuration text rendered from the harness's own expression tree is parsed by the real parser; the Action::Switch found in the layout is evaluated through Switch::actions (whole case list, and every case alone through a one-case Switch) and compared with a recursive evaluator. Exhaustive and seed-independent: every list of or/and/not trees (arity >= 1) of total size <= 7 quick / 8 thorough over leaves {a,b,c}, <= 6 / 7 over three two-word leaves {(input real a),(input-history virtual vk1 2),(base-layer l1)}, <= 6 / 7 over {a,(layer l1),(key-timing 2 gt 2304)}, each under all 8 truth assignments; every break/fallthrough pattern x truth pattern of case lists up to length 5. Random: 3 switches per case with 1-16 cases, expressions up to depth 8 and ~120 nodes, all ten item kinds, two-word items at every position, thresholds on every compression edge, 48/96 random states each with history ages placed on q(t)-1, q(t), q(t)+1. End-to-end part: a real Kanata is driven through Sim into a state (held keys, released keys, virtual keys, held and switched layers, gaps placed on threshold edges), the switch or fork key is pressed and the witness keys appearing at the OS are compared with the model (up to 8 firing cases exactly; above 8 only 'no non-firing case performed'). Old-history-entry families (end-to-end, real ticks): systematic and seed-independent - recency 1..=8 x {newer entries typed after the long gap, all entries typed before it (several entries beyond the counter range at once), thorough also: an even older entry and a first long gap before the referenced key} x 38 quick / 63 thorough ages of the referenced entry (5000, 32767..32769, 65407/65408, every tick 65530..=65545, 65536+{199,200,201,1000,1001,2303,2304}, 70000, 100000, 131071..131073, 131222, 196611, 200000, ...) x 4 threshold triples {0,200,1000} {5,2303,30000} {12,65407,65534} {1,32767,65535}, each threshold as lt and as gt case plus (key-history k n), (input-history real k n+1), (key-timing 1 ..), (key-timing n+1 ..) and an and/not combination on the same history; random - 2000 quick / 30000 thorough scenarios of the ordinary end-to-end generator (timing-heavy leaves, thresholds 0..65535) in which one or two gaps anywhere in the history are longer than 65535 ticks, aimed so that the entry a key-timing leaf refers to is 65530..65545 or 65536*k + {q(t)-1, q(t), q(t)+1, 0..9, random} ticks old (k = 1..3). Violations found when a key-timing leaf refers to an entry older than 65535 ticks carry their own signature suffix. Late-evaluation family (end-to-end, 6000 quick / 80000 thorough scenarios, 14 kinds in rotation): a settled prelude (plain keys, virtual keys, layer-while-held, optionally a complete v1 chord of 2 or 3 keys) followed by an episode in which the switch is evaluated while presses are unprocessed: tap action of tap-hold / tap-hold-release (1-4 presses, releases and virtual-key presses of other keys during the undecided period, gaps 0..20 ticks, deciding release possibly in the same tick), hold action of tap-hold by timeout, of tap-hold-press by a burst of 1-3 presses, of tap-hold-release by press + release of another key, first action of a tap-dance ended by a burst of presses, action of a defchords chord of 2 (with a 3-key superset) or 3 keys in any order, action of a defchordsv2 chord, the plain switch key after an earlier chord, after a held-back defchordsv2 participant (with further presses behind it), and inside a burst of up to 8 events without a tick in between (before and behind it); after the last press only releases and time follow until the switch has acted. The switch has 1-6 random cases plus an always-true last case over (input-history real|virtual k r) items (3/4 aimed at or next to the true slot), (input ..), bare keys, layer items and and/or/not to depth 6; the reference state is the list of press events in arrival order. Macro family (end-to-end, 600 quick / 8000 thorough scenarios x up to 8 probe offsets x 3 probe keys): one or two macros (macro / macro-release-cancel) built from output-chord-prefixed groups (1-2 of S- C- A- RS- M-, nested to depth 2) around taps of x / y and delays 5..200, released early or late, optionally lsft/lctl/... also held by a plain key, a multi or a virtual key (sometimes let go while the macro runs); probes: a fork tree of depth <= 2 with 1-3 trigger keys per fork, the switch equivalent to it (one breaking case per leaf), a switch of 1-5 random cases of and/or/not over key names and (input real a|b); probe offsets: 3 within -3..+2 ticks of an OS-visible edge of the macro, up to 3 inside holds, one random, one after the macros ended; every probe runs in a fresh kanata, a dry run without probe supplies the edges. Non-trivial = a case/scenario that was evaluated; distinct = exhaustive chunk, or set of item kinds (random), or scenario class (e2e), or (layout, recency, threshold set) / (recency, comparison) of an old entry (age families), or (kind, earlier chord, presses while unprocessed, events in the same tick) (late family), or (probe kind, during/after the macro, named key held only by a macro, result decided by it) (macro family).".into()
     }
     fn assumptions(&self) -> Vec<String> {
         vec![
@@ -740,6 +780,8 @@ impl Check for C10Check {
             "end-to-end with more than 8 firing fallthrough cases (beyond the 8-slot action queue) is only judged for 'no non-firing case is performed'; the lost actions are counted".into(),
             "ages of history entries: an entry typed A ticks before the switch key is processed compares as min(A, 65535) - the age counters are 16 bit and 'at least that long ago' must stay true; so for an entry older than 65535 ticks (key-timing n gt T) is true and (key-timing n lt T) is false for every T that compresses to less than 65535, however many multiples of 65536 ticks have passed. The only threshold that compresses to 65535 is 65535 itself: there 'gt' can never be true although the guide says 'pressed later than $time'; the guide does not say how far back ages are known, so a scenario in which such a leaf refers to an entry older than 65535 ticks is not judged (counted as e2e_unjudged_threshold_65535_on_older_entry); the same leaf on entries up to 65535 ticks old is judged".into(),
             "in the stepper every t:N really advances N layout ticks; the running program stops ticking while kanata is idle, so history entries older than 65535 ticks arise there only while something keeps kanata non-idle (or a large key-timing threshold keeps it ticking) - the property is about what the switch does with the state it is given, so these states are generated regardless of how likely they are".into(),
+            "late-evaluation family: (input-history ..) is judged against the arrival order of ALL press events (real keys and virtual-key presses) that arrived before the switch was evaluated, whether or not kanata had processed them; to make 'before the evaluation' independent of kanata's timing, nothing but releases and time follows the last press of a scenario until the first action of the switch is out (a scenario in which no action of the switch appears after the last press - the waiting action resolved differently than intended - is counted as late_unjudged_* and not judged). Consequently recency 1 is the activating key only if nothing was pressed after it; the guide's 'recency 1 is the input activating switch itself' describes that ordinary case. In these scenarios (input real k) / (input virtual v) and bare key names are only asked about keys that are pressed or released in the settled prelude and not touched afterwards (whether a key whose press or release is still queued counts as 'currently pressed' is not decided by the guide), key-history / key-timing are not used (the order of kanata's own outputs is exactly what is delayed), events may arrive without a tick in between".into(),
+            "macro family: a bare key name in fork / switch is active iff the OS model (built from kanata's own output events) has the key down when the probe key arrives - for keys held by physical keys, multi, virtual keys and running macros alike; a probe is not judged (macro_probe_unjudged_named_key_changes_during_processing) if one of the keys named by the probed fork / switch goes down or up at the OS between the arrival of the probe key and the tick in which its first action comes out (1-2 ticks), because the order of macro step and key processing inside one tick is not specified; the timeline of the macro is observed, not modelled".into(),
             "virtual key name -> coordinate is taken from Cfg.fake_keys in the direct part and checked by really pressing the virtual keys in the end-to-end part".into(),
         ]
     }
@@ -783,6 +825,41 @@ impl Check for C10Check {
             ("e2e_two_or_more_entries_older_than_65535", 300),
             ("e2e_key_history_entry_older_than_65535", 1_000),
             ("e2e_input_history_entry_older_than_65535", 1_000),
+            // late-evaluation dimension (input-history = arrival order while presses are unprocessed)
+            ("late_judged", ctx.tier.sel(4_500, 60_000)),
+            ("late_input_history_items", ctx.tier.sel(12_000, 160_000)),
+            ("late_judged_tap_hold_tap", ctx.tier.sel(500, 7_000)),
+            ("late_judged_tap_hold_release_tap", ctx.tier.sel(250, 3_500)),
+            ("late_judged_tap_hold_hold_by_timeout", ctx.tier.sel(250, 3_500)),
+            ("late_judged_tap_hold_press_hold", ctx.tier.sel(250, 3_500)),
+            ("late_judged_tap_hold_release_hold", ctx.tier.sel(250, 3_500)),
+            ("late_judged_tap_dance_interrupted", ctx.tier.sel(250, 3_500)),
+            ("late_judged_chord_action_2_keys", ctx.tier.sel(250, 3_500)),
+            ("late_judged_chord_action_3_keys", ctx.tier.sel(250, 3_500)),
+            ("late_judged_chordv2_action", ctx.tier.sel(250, 3_500)),
+            ("late_judged_switch_key_after_chord", ctx.tier.sel(250, 3_500)),
+            ("late_judged_switch_key_after_held_back_chordv2_participant", ctx.tier.sel(250, 3_500)),
+            ("late_judged_switch_key_in_burst", ctx.tier.sel(500, 7_000)),
+            ("late_judged_after_earlier_chord", ctx.tier.sel(1_200, 16_000)),
+            ("late_judged_with_events_in_the_same_tick", ctx.tier.sel(1_500, 20_000)),
+            ("late_judged_most_recent_input_is_not_the_activating_key", ctx.tier.sel(1_500, 20_000)),
+            ("late_result_depends_on_inputs_pressed_while_unprocessed", ctx.tier.sel(1_500, 20_000)),
+            ("late_result_depends_on_chord_member_inputs", ctx.tier.sel(800, 10_000)),
+            // macro-held-key dimension (fork / switch key tests see keys held by a running macro)
+            ("macro_probes_fork", ctx.tier.sel(2_000, 26_000)),
+            ("macro_probes_switch_equivalent_to_fork", ctx.tier.sel(2_000, 26_000)),
+            ("macro_probes_switch_random_key_expressions", ctx.tier.sel(1_800, 24_000)),
+            ("macro_fork_and_equivalent_switch_compared", ctx.tier.sel(2_000, 26_000)),
+            ("macro_probe_named_key_held_only_by_macro", ctx.tier.sel(2_000, 26_000)),
+            ("macro_fork_branch_decided_by_macro_held_key", ctx.tier.sel(500, 6_500)),
+            ("macro_switch_equivalent_decided_by_macro_held_key", ctx.tier.sel(500, 6_500)),
+            ("macro_switch_random_decided_by_macro_held_key", ctx.tier.sel(500, 6_500)),
+            ("macro_probe_after_end_named_macro_key_is_up", ctx.tier.sel(700, 9_000)),
+            ("macro_probe_named_key_held_physically_while_macro_runs", ctx.tier.sel(1_000, 13_000)),
+            ("macro_probe_two_macros", ctx.tier.sel(1_500, 20_000)),
+            ("macro_probe_release_cancel_variant", ctx.tier.sel(500, 6_500)),
+            ("macro_fork_right", ctx.tier.sel(700, 9_000)),
+            ("macro_fork_left", ctx.tier.sel(700, 9_000)),
         ]
     }
     fn exhaustive(&self, _ctx: &Ctx) -> bool {
